@@ -79,6 +79,11 @@ CHECKS["C19"] = dict(technique="exhaustive enumeration of layout static_asserts 
                      note="Trusted: clang's layout computation for the cross targets (compile-only); the Go layer cannot be built here.",
                      ref="DESIGN.md section 4, C19")
 
+CHECKS["C20"] = dict(technique="exhaustive symbol audit (nm) of every object file over compiler x back end x word size x optimisation level plus a thumbv6m cross build; generated concurrent workloads executed under ThreadSanitizer and compared with sequential results",
+                     engine="hypothesis+tsan-driver",
+                     note="Trusted: TSan's happens-before analysis; schedules are sampled; allowlists: mem* primitives, compiler arithmetic helpers, the known never-written writable globals.",
+                     ref="DESIGN.md section 4, C20")
+
 PENDING = {}
 
 
@@ -134,7 +139,7 @@ def main():
         pass
 
 
-ENGINE_TEXT = {"libfuzzer+sanitizers": "clang libFuzzer target fuzz/fz_unmarshal.cpp built with -fsanitize=fuzzer,address,undefined from the working tree; g++ ASan+UBSan shim builds preloaded into the Hypothesis workers"}
+ENGINE_TEXT = {"hypothesis+tsan-driver": "Hypothesis-generated workloads fed to conc/tsan_driver.cpp, built from the working tree with clang -fsanitize=thread (portable and assembly builds); nm-based symbol audit", "libfuzzer+sanitizers": "clang libFuzzer target fuzz/fz_unmarshal.cpp built with -fsanitize=fuzzer,address,undefined from the working tree; g++ ASan+UBSan shim builds preloaded into the Hypothesis workers"}
 
 if __name__ == "__main__":
     main()
